@@ -298,6 +298,74 @@ def targets(ctx):
             fails.append(Failure(f"raises_{g.where}", f"size|raises_{g.where}_{type(g.exc).__name__}|{kind}", f"payload of {n} bytes: {g}"))
         return Eval(fails, nontrivial=True, labels=[f"size_kind:{kind}", f"size_log2:{n.bit_length() - 1}"])
 
+    # ---- deep nesting: chains of 5..90 levels (the reference parser accepts 100) through a singular field, a repeated
+    # field, a map value and a oneof member; the work must stay polynomial in the depth - counted in calls of
+    # Message.__eq__ (a budget, not a clock: exceeding it is the failure, so a blow-up does not hang the check)
+    class _Budget(Exception):
+        pass
+
+    def deep_cases():
+        for depth in (5, 12, 25, 40, 60, 90):
+            for via in ("rec", "kids", "m", "orec", "mixed"):
+                yield {"depth": depth, "via": via}
+
+    def deep_ev(case):
+        import betterproto
+
+        depth, via = case["depth"], case["via"]
+        Rec = c.bp("Rec")
+        m = Rec(i32=7, ostr="leaf")
+        levels = 1
+        for lvl in range(depth):
+            how = via if via != "mixed" else ("rec", "kids", "m", "orec")[lvl % 4]
+            levels += 2 if how == "m" else 1  # (a map entry is a message of its own)
+            if how == "rec":
+                m = Rec(rec=m, i32=lvl)
+            elif how == "kids":
+                m = Rec(kids=[m], i32=lvl)
+            elif how == "m":
+                m = Rec(m={"k": m}, i32=lvl)
+            else:
+                m = Rec(orec=m, i32=lvl)
+        limit = 400 * (depth + 2) ** 2
+        calls = [0]
+        orig = betterproto.Message.__eq__
+
+        def counting(a, b):
+            calls[0] += 1
+            if calls[0] > limit:
+                raise _Budget()
+            return orig(a, b)
+
+        fails = []
+        betterproto.Message.__eq__ = counting
+        try:
+            try:
+                b = bytes(m)
+                m2 = Rec().parse(b)
+                if (m2 == m) is not True:
+                    fails.append(Failure("roundtrip_eq", f"deep|roundtrip_eq|{via}", f"depth {depth}"))
+                if bytes(m2) != b:
+                    fails.append(Failure("reencode_bytes", f"deep|reencode_bytes|{via}", f"depth {depth}"))
+                if len(m) != len(b):
+                    fails.append(Failure("len_vs_bytes", f"deep|len_vs_bytes|{via}", f"depth {depth}: len {len(m)} bytes {len(b)}"))
+                if levels <= 95:  # (the reference parser stops at 100 levels)
+                    r = c.rf("Rec").FromString(b)
+                    if r.SerializeToString(deterministic=True) != b:
+                        fails.append(Failure("reference_view", f"deep|reference_reencodes_differently|{via}", f"depth {depth}"))
+                d = m.to_dict()
+                if (Rec().from_dict(d) == m) is not True:
+                    fails.append(Failure("json_roundtrip_eq", f"deep|json_roundtrip_eq|{via}", f"depth {depth}"))
+            except _Budget:
+                fails.append(Failure("work_not_polynomial_in_depth", f"deep|work_not_polynomial_in_depth|{via}",
+                                     f"depth {depth}: more than {limit} calls of Message.__eq__ during bytes / parse / == / len / to_dict / from_dict"))
+            except Exception as e:  # noqa: BLE001
+                fails.append(Failure("raises_deep", f"deep|raises_{type(e).__name__}|{via}", f"depth {depth}: {e}"[:300]))
+        finally:
+            betterproto.Message.__eq__ = orig
+        ctx.extra.setdefault("deep_nesting_eq_calls", {})[f"{via}:{depth}"] = calls[0]
+        return Eval(fails, nontrivial=True, labels=[f"deep_via:{via}", f"deep_depth:{depth}"])
+
     from . import _seq
 
     from . import _wkt
@@ -308,6 +376,8 @@ def targets(ctx):
         Target("grammar_schema_values", grammar_ev, strategy=gstrat, quick=3, thorough=40, time_quick=60, time_thorough=900, pin_budget=10, pin_sigs=1),
         Target("user_types_named_like_wkt", wktlike_ev, strategy=wktlike_strat(), quick=150, thorough=2000,
                rule="protos/wktlike.proto: user messages / enums named StringValue, BoolValue, Timestamp, Duration, Empty, EnumValue ... as singular, repeated, map-value and oneof fields; round trip and reference view"),
+        Target("deep_nesting", deep_ev, cases=deep_cases, exhaustive=True,
+               rule="chains of 5, 12, 25, 40, 60 and 90 nested messages through a singular field / repeated field / map value / oneof member / a mix: round trip, len, reference re-encoding, JSON round trip, and at most 400*(depth+2)**2 calls of Message.__eq__"),
         Target("payload_sizes_around_powers_of_two", size_ev, cases=size_cases, exhaustive=True,
                rule="one bytes / string / nested-message / packed payload of exactly 2**k-1, 2**k, 2**k+1 bytes (k = 7..23, thorough 24) and 3*2**k, 5 MiB, 6 MiB: round trip, len, reference re-encoding"),
         _seq.target("C01"),
